@@ -238,6 +238,33 @@ class _FailingDump:
         return getattr(self._inner, name)
 
 
+ID_GENERATORS = ["constant", "every-2", "every-3", "cycle-2", "cycle-3", "sticky-after-2"]
+
+
+def _repeating_ids(handler, kind):
+    """The handler's session manager replaced by a SUBCLASS of its class whose `generate_session_id()` (the documented extension
+    point) may hand out an id that is still live: a constant id, one id per k creations, ids from a short cycle, fresh ids that
+    become sticky."""
+    base = type(handler.session_manager)
+    state = {"n": 0}
+
+    class RepeatingIds(base):
+        def generate_session_id(self):
+            n = state["n"]
+            state["n"] += 1
+            if kind == "constant":
+                return "session-constant"
+            if kind.startswith("every-"):
+                return f"session-{n // int(kind.split('-')[1])}"
+            if kind.startswith("cycle-"):
+                return f"session-{n % int(kind.split('-')[1])}"
+            if kind == "sticky-after-2":
+                return f"session-{min(n, 2)}"
+            raise ValueError(kind)
+
+    handler.session_manager = RepeatingIds()
+
+
 def _faulty_session_manager(handler, cls_name, times):
     """The session store raises `cls_name` from create_session for the first `times` calls (a custom / remote store that is
     temporarily unavailable), then works."""
@@ -468,6 +495,9 @@ def run_server_seq(cases):
         # all handlers are built FIRST (so the one a request goes to is in general not the newest object of its class)
         hvs = c.get("hvs") or [c.get("hv")] * int(c.get("handlers") or 1)
         handlers = [_new_handler(v, index=i) for i, v in enumerate(hvs)]
+        if c.get("idgen"):
+            for h_ in handlers:
+                _repeating_ids(h_, c["idgen"])
         if c.get("store_raises"):
             for h_ in handlers:
                 _faulty_session_manager(h_, c["store_raises"]["cls"], c["store_raises"]["times"])
@@ -608,6 +638,9 @@ def run_server_seq(cases):
             late["sid_reissued"] = sid is not None and (id(handler), sid, sid) in all_sids[i + 1:]
             if sid is not None and not late["sid_reissued"] and any(x[0] == id(handler) and x[1] == sid for x in all_sids[i + 1:]):
                 late["sid_handed_out_again"] = True  # a LATER request that did not carry it was given the very same session id
+                if c.get("idgen"):
+                    # ... by the host's own id generator: the record under that id now belongs to the later request
+                    late["sid_reissued"] = True
             o["late"] = late
             if "kind" not in o:  # nothing was read right away: the late reading is the only one
                 for k in ("kind", "code", "has_version", "answered", "has_session", "session"):
